@@ -1532,6 +1532,18 @@ class SymEval:
                                     v = v.func.value
                                 if isinstance(v, ast.Attribute) and isinstance(v.value, ast.Name) and v.value.id == 'self' and v.attr == attr:
                                     return base.attrs[f.name]
+            # an attribute the model did not supply but the constructor initialises to a constant (a cache set to None, a flag, a counter): it has that constant until
+            # something assigns it (the model stands for an object that went through __init__)
+            for c in base.mro:
+                init = [f for f in c.body if isinstance(f, ast.FunctionDef) and f.name == '__init__']
+                consts = [st.value.value for f in init for st in ast.walk(f) if isinstance(st, ast.Assign) and len(st.targets) == 1 and isinstance(st.targets[0], ast.Attribute)
+                          and isinstance(st.targets[0].value, ast.Name) and st.targets[0].value.id == 'self' and st.targets[0].attr == attr and isinstance(st.value, ast.Constant)]
+                others = [st for f in init for st in ast.walk(f) if isinstance(st, (ast.Assign, ast.AugAssign, ast.AnnAssign)) for t in (st.targets if isinstance(st, ast.Assign) else [st.target])
+                          if isinstance(t, ast.Attribute) and isinstance(t.value, ast.Name) and t.value.id == 'self' and t.attr == attr and not (isinstance(st, ast.Assign) and isinstance(st.value, ast.Constant))]
+                if consts and not others and len(set(map(repr, consts))) == 1:
+                    key = ('_%s%s' % (c.name, attr)) if attr.startswith('__') and not attr.endswith('__') else attr
+                    base.attrs[key] = consts[0]
+                    return consts[0]
             raise Opaque('attribute %s.%s unknown' % (base.name, attr))
         if is_arr(base):
             if attr in getattr(base, '_am_attrs', ()):        # a rule's model array that carries attributes of its own (element type, raw views)
